@@ -22,7 +22,8 @@ TRaise == Ev("Raise") /\ Raise
 TSnap == Ev("Snapshot") /\ Snapshot(SeqToSet(R.cAlive), F(R.cEnv), FS(R.cInv), R.cFoundOk,
                                      SeqToSet(R.lAlive), F(R.lEnv), FS(R.lInv), R.lFoundOk)
 TLoadNamed == Ev("LoadNamed") /\ LoadNamed(R.mode = "dest", R.got = 1, R.ran = 1, R.found = 1)
-TraceNext == TLoadNamed \/ TReset \/ TCreateTry \/ TCreateRes \/ TCreated \/ TMoveTry \/ TMoveRes \/ TDestTry \/ TDestRes \/ THook \/ THookEnd \/ TRaise \/ TSnap
+TLoadInherit == Ev("LoadInherit") /\ LoadInherit(R.got = 1, R.same = 1, R.copies)
+TraceNext == TLoadNamed \/ TLoadInherit \/ TReset \/ TCreateTry \/ TCreateRes \/ TCreated \/ TMoveTry \/ TMoveRes \/ TDestTry \/ TDestRes \/ THook \/ THookEnd \/ TRaise \/ TSnap
 TraceInit == Init /\ l = 1
 TraceSpec == TraceInit /\ [][TraceNext]_tvars
 ASSUME TLCSet(1, 0)
